@@ -20,8 +20,9 @@ type c14Tok struct {
 	text string
 }
 
-var c14Terms = []string{"2d6", "d20", "3d6kh2", "4d6dl1", "2d20kl1", "d20优势", "d20劣势", "3d6min3", "2d6max4", "f", "b2", "p1", "b", "5a8", "4c8", "(2d1)d(3d1)", "d4d6", "2d", "d", "3a8m6k4", "2c8m12", "力量", "x1", "$t", "敏捷:当前", "1d1", "6d1k2", "10a0", "3D6K1", "2d6q1", "3d6dl5", "2d6dh4", "4d6dl4", "3d6kh5", "2d4d6k1", "d4d6d8", "(1d2)d3d4", "5d6dh2", "3d20kl2", "5c15m20", "3c12m12", "6c13m20", "4C11M12", "8c9"}
+var c14Terms = []string{"2d6", "d20", "3d6kh2", "4d6dl1", "2d20kl1", "d20优势", "d20劣势", "3d6min3", "2d6max4", "f", "b2", "p1", "b", "5a8", "4c8", "(2d1)d(3d1)", "d4d6", "2d", "d", "3a8m6k4", "2c8m12", "力量", "x1", "$t", "敏捷:当前", "1d1", "6d1k2", "10a0", "3D6K1", "2d6q1", "3d6dl5", "2d6dh4", "4d6dl4", "3d6kh5", "2d4d6k1", "d4d6d8", "(1d2)d3d4", "5d6dh2", "3d20kl2", "5c15m20", "3c12m12", "6c13m20", "4C11M12", "8c9", "20a8", "16a9", "15a8m10k8", "30a10", "14a8", "20a6m10q3"}
 
+var c14WoDre = regexp.MustCompile(`^(\d+)[aA](\d+)(?:[mM](\d+))?(?:[kK](\d+)|[qQ](\d+))?$`)
 var c14DCre = regexp.MustCompile(`^(\d+)[cC](\d+)(?:[mM](\d+))?$`)
 
 func c14Gen(r *fw.Rand, depth int) []c14Tok {
@@ -363,6 +364,27 @@ func c14Case(w *fw.W, idx int, r *fw.Rand) {
 				w.Violate(idx, "mismatch", "detail|annotation-total|"+s.Tag, desc, bad, nil)
 			}
 			w.Count("dc_spans_rule_checked", 1)
+		}
+		if m := c14WoDre.FindStringSubmatch(src[s.Begin:minInt(int(s.End), len(src))]); m != nil && s.Tag == "dice-wod" {
+			// WoD: the success count is what the rule computes from the rounds listed (and a pool
+			// that lists dice lists all of them)
+			pool, _ := strconv.ParseInt(m[1], 10, 64)
+			add, _ := strconv.ParseInt(m[2], 10, 64)
+			points, th, ge := int64(10), int64(8), true
+			if m[3] != "" {
+				points, _ = strconv.ParseInt(m[3], 10, 64)
+			}
+			if m[4] != "" {
+				th, _ = strconv.ParseInt(m[4], 10, 64)
+			}
+			if m[5] != "" {
+				th, _ = strconv.ParseInt(m[5], 10, 64)
+				ge = false
+			}
+			if bad := mon.CheckWoD(add, pool, points, th, ge, int64(sv), headerAll(s.Text), -1, s.Text, nil); bad != "" {
+				w.Violate(idx, "mismatch", "detail|annotation-total|"+s.Tag, desc, bad, nil)
+			}
+			w.Count("wod_spans_rule_checked", 1)
 		}
 		if s.Tag == "dice-coc-bonus" || s.Tag == "dice-coc-penalty" {
 			n := int64(len(strings.Fields(strings.TrimSuffix(s.Text[strings.IndexAny(s.Text, "励罚")+3:], ")"))))
